@@ -412,6 +412,25 @@ func viaReader(ast MalType, e EnvType) MalType {
 				out = nil
 			}
 		}()
+		if l, isList := ast.(List); isList && h&2 != 0 && len(l.Val) >= 3 {
+			if hd, isSym := l.Val[0].(Symbol); isSym && hd.Val == "do" {
+				// a program assembled from SEVERAL sources: every top-level form is read on its own under a module
+				// name of its own (a library file, a script, …); nothing a program computes — nor the host stack it
+				// needs — may depend on which source a function or a call form came from
+				forms := []MalType{l.Val[0]}
+				for i, f := range l.Val[1:] {
+					fi, err := lisp.READ(lisp.PRINT(f), NewCursorFile(fmt.Sprintf("src%d.lisp", i)), e)
+					if err != nil {
+						return
+					}
+					forms = append(forms, fi)
+				}
+				if a2 := (List{Val: forms}); render(a2) == canon {
+					out = a2
+				}
+				return
+			}
+		}
 		text := lisp.PRINT(ast)
 		a2, err := lisp.READ(text, nil, e)
 		if err == nil && render(a2) == canon {
